@@ -21,7 +21,7 @@
 (* history up to MaxHist, plus the representation invariants.               *)
 (* This is advisory for verdicts (those come from Dispatch.tla only).       *)
 (***************************************************************************)
-EXTENDS Naturals, Sequences, FiniteSets, TLC
+EXTENDS Naturals, Sequences, FiniteSets, TLC, Json
 
 CONSTANTS Kinds, Arities, NXs, K,   \* executions the model checker starts (as in Dispatch)
           MaxHist,                  \* bound on the history
@@ -29,7 +29,10 @@ CONSTANTS Kinds, Arities, NXs, K,   \* executions the model checker starts (as i
                                     \* checks/c17.py probes this at compile time and picks the configuration)
           Copies,                   \* whether the copy / move / swap / destroy calls on a second object are explored
           Mutation                  \* "none", or the name of a seeded transcription error (self-test of the refinement check);
-                                    \* "no_freeze" drops the environment assumption FreshOK (two live objects, new class)
+                                    \* "no_freeze" drops the environment assumption FreshOK (two live objects, new class);
+                                    \* "two_fresh" is not an error but the advisory exploration of what the property statement
+                                    \* excludes: a second, independently constructed fast dispatcher over the same hierarchy
+                                    \* (New2), no environment assumption
 
 VARIABLES cfg, idx, next, cbs, next2, cbs2, has2, ub, what, hist, last, pre,
           areg, areg2     \* ghosts: the abstraction AbsReg of the current representations (kept so that TLC computes them once per step)
@@ -96,7 +99,12 @@ Lookup(c, d, ixs) ==
 (* abstraction: the handler that a tuple of classes reaches (0 = an error is reported) *)
 ReachOf(cb, ix, t) == Lookup(cb, 0, [j \in 1..Len(t) |-> ix[t[j]]])
 Reach(t) == ReachOf(cbs, idx, t)
-AbsRegOf(cb, ix) == [t \in Tuples(cfg.ar, cfg.k) |-> LET r == ReachOf(cb, ix, t) IN IF r.k = "ok" THEN r.cell.h ELSE 0]
+(* (with the dynamic caster a cell that belongs to other classes is not reached: the cast fails and the call reports an
+   error; in every history the property statement covers a cell found for t was registered for t and the cast succeeds) *)
+AncL(c) == CASE c = 4 -> {} [] c = 5 -> {1, 4} [] OTHER -> {4}
+CastOK(t, sig) == \A j \in 1..Len(t) : t[j] = sig[j] \/ sig[j] \in AncL(t[j])
+AbsRegOf(cb, ix) == [t \in Tuples(cfg.ar, cfg.k) |-> LET r == ReachOf(cb, ix, t) IN
+                        IF r.k = "ok" /\ (cfg.kind # "fast_dyn" \/ CastOK(t, r.cell.sig)) THEN r.cell.h ELSE 0]
 AbsReg == AbsRegOf(cbs, idx)
 AbsReg2 == AbsRegOf(cbs2, idx)
 Assigned == {c \in 1..5 : idx[c] # MAX}
@@ -109,7 +117,7 @@ CbsOf(d) == IF d = 1 THEN cbs ELSE cbs2
 NextOf(d) == IF d = 1 THEN next ELSE next2
 Live(d) == d = 1 \/ (d = 2 /\ has2)
 (* environment assumption (as in L1): while two objects are alive only classes that already have an index are registered *)
-FreshOK(t) == Mutation = "no_freeze" \/ ~has2 \/ \A i \in 1..Len(t) : idx[t[i]] # MAX
+FreshOK(t) == Mutation \in {"no_freeze", "two_fresh"} \/ ~has2 \/ \A i \in 1..Len(t) : idx[t[i]] # MAX
 
 Insert(d, t, h) ==
     /\ Live(d)
@@ -181,6 +189,10 @@ Take(how) ==
          [] how = "swap" -> Mut("Take", [how |-> how], cbs2, next2, cbs, next, has2, e)
          [] how \in {"move", "movector"} -> Mut("Take", [how |-> how], cbs2, next2, <<>>, 0, FALSE, e)
          [] OTHER -> Mut("Take", [how |-> how], cbs2, next2, cbs2, next2, has2, e)
+(* a second dispatcher constructed on its own: empty m_callbacks, m_next_index = 0 - while the static class
+   indices keep the values the first object gave them *)
+New2 ==
+    Mut("New2", A!NoArg, cbs, next, <<>>, 0, TRUE, [op |-> "N", d |-> 2, t |-> <<>>, h |-> 0, how |-> ""])
 Drop2 ==
     /\ Copies
     /\ has2
@@ -209,6 +221,7 @@ Next ==
     \/ \E how \in A!CloneHows : Clone(how)
     \/ \E how \in A!TakeHows : Take(how)
     \/ Drop2
+    \/ (Mutation = "two_fresh" /\ New2)
 
 Spec == Init /\ [][Next]_ivars
 Bound == Len(hist) <= MaxHist
@@ -237,6 +250,14 @@ CellExact ==
           /\ LET r == Reach(t) IN (r.k = "ok" => r.cell.sig = t) /\ r.k # "ub"
           /\ LET r == ReachOf(cbs2, idx, t) IN (r.k = "ok" => r.cell.sig = t) /\ r.k # "ub"
 
+(* Advisory exploration (Mutation = "two_fresh"): the tuples whose reachable handler is not what the
+   history of registrations says, per object.  TLC reports the shortest history that has one as a JSON
+   line; checks/c17.py replays it on the real dispatchers. *)
+Deviations == LET s == A!Replay(hist, A!ZeroReg(cfg.ar, cfg.k)) IN
+    {<<1, t>> : t \in {u \in Tuples(cfg.ar, cfg.k) : areg[u] # s.r1[u]}} \cup
+    {<<2, t>> : t \in {u \in Tuples(cfg.ar, cfg.k) : areg2[u] # s.r2[u]}}
+NoDeviation == Deviations = {} \/ (PrintT("@W@" \o ToJson([cfg |-> cfg, hist |-> hist, dev |-> Deviations])) /\ FALSE)
+
 StepRefines == LET a == last'.a  o == last'.op IN
     \/ o = "Insert"   /\ A!Insert(a.d, a.t, a.h)
     \/ o = "Erase"    /\ A!Erase(a.d, a.t)
@@ -244,5 +265,6 @@ StepRefines == LET a == last'.a  o == last'.op IN
     \/ o = "Clone"    /\ A!Clone(a.how)
     \/ o = "Take"     /\ A!Take(a.how)
     \/ o = "Drop2"    /\ A!Drop2
+    \/ o = "New2"     /\ A!New2
 Refines == [][StepRefines]_ivars
 =============================================================================
